@@ -121,7 +121,7 @@ Proof.
     destruct x as [x|e|c|]; try (injection H as <- <-; exact HW1).
     + destruct x; try (injection H as <- <-; exact HW1).
       destruct (fmt d =? F_RTOX); [injection H as <- <-; exact HW1|].
-      destruct (negb ((fmt d =? F_INF) || (fmt d =? F_MORE) || (fmt d =? F_ACK))); injection H as <- <-; exact HW1.
+      destruct (negb ((fmt d =? F_INF) || (fmt d =? F_MORE))); injection H as <- <-; exact HW1.
     + eapply IH; eassumption.
 Qed.
 
